@@ -731,8 +731,10 @@ func (tdsChan *Channel) WritePacket(packet *Packet) {
 	}
 
 	// The packet is header-only - pass it directly into the package
-	// channel.
-	if packet.Header.Length == PacketHeaderSize {
+	// channel. A packet of a response that carries no data is not a
+	// control packet: it goes through the queue like every other packet
+	// of the response, it may be the one that ends the message.
+	if packet.Header.Length == PacketHeaderSize && packet.Header.MsgType != TDS_BUF_RESPONSE {
 		tdsChan.deliver(&HeaderOnlyPackage{Header: packet.Header})
 		return
 	}
